@@ -326,6 +326,9 @@ impl Engine for TwinSim {
         }
         out
     }
+    fn replay_attempts(&self) -> u32 {
+        8
+    }
     fn rule(&self) -> String {
         "one case = a chainsim or stakesim operation list (failing transactions included), a second list for a noise instance with another address prefix, and a seeded schedule over {twin A, twin B, noise}: sequential (A then B), A/B interleaved step by step, A/B/noise interleaved, or noise and half of A first with twin B created late; one run in five additionally executes the list in two fresh child processes, alone and after the noise instance, and compares the transcripts. Transcript = per-step digest of ok/err, events, data, code ids, checksums, contract addresses (invocation trace), query answers and root-store digest, plus the final root store byte for byte. Non-trivial = an interleaved schedule or a fresh-process comparison. Distinct = hash of the transcript.".to_string()
     }
